@@ -2,6 +2,8 @@
 
 parts:  "lines"  extract._parse_phoenix_line(line, delim)        (rendered assignments, both dialects, + malformed stream)
         "prot"   extract.parse_phoenix_prot(prot_key, prot_text)  (whole protocol texts with BEGIN/END markers)
+        "csa"    extract.csa_series_trans_func(elem) / MetaExtractor()(dataset) on a hand-built CSA2 series header
+                 (which element is parsed, in which dialect, merge under 'MrPhoenixProtocol.', raw element removed)
 
 Every case is stored as its *components* (key, value, whitespace, comment, mutation); the line/text and the
 expected result are derived from the components by `build_line` / `build_prot`, so shrinking keeps the oracle sound.
@@ -12,15 +14,17 @@ from vlib.coqlit import *
 
 ID = "C16"
 COQ_PROPS = "Props/C16.v"
-THEOREMS = ["C16_roundtrip", "C16_blank", "C16_malformed", "C16_prot", "C16_dict_set",
+THEOREMS = ["C16_roundtrip", "C16_blank", "C16_malformed", "C16_prot", "C16_csa_merge", "C16_csa_merge_other", "C16_dict_set",
             "C16_int_dec", "C16_int_hex", "C16_float_repr", "C16_str_single_quote", "C16_str_double_quote", "C16_bare_1e5_is_hex"]
 ALLOWED_AXIOMS = []
 TRUSTED_BASE = [
     "Common/PyNum.v py_int / py_int16 / py_float / py_strip as models of CPython int(s) / int(s,16) / float(s) / str.strip "
     "(modelled, not verified against CPython's C source; validated by this correspondence and by C20's)",
     "Common/F64.v `fl` as the model of IEEE binary64 round-to-nearest-even (correct rounding of CPython's dtoa)",
-    "Phoenix/Model.v is a hand transliteration of extract._parse_phoenix_line / parse_phoenix_prot; the marker strings, "
-    "protocol keys and delimiters are copied literals (tied by the prot correspondence, which uses them on every case)",
+    "Phoenix/Model.v is a hand transliteration of extract._parse_phoenix_line / parse_phoenix_prot / csa_series_trans_func; the marker "
+    "strings, protocol keys, the 'MrPhoenixProtocol.' prefix and delimiters are copied literals (tied by the prot and csa correspondences, which use them on every case)",
+    "nibabel.nicom.csareader.read and extract.simplify_csa_dict are outside the model: the csa part feeds the model the simplified dict they deliver; "
+    "the Python oracle, which knows the tags it wrote into the CSA2 header, checks their result independently",
 ]
 ASSUMPTIONS = [
     "bare (unquoted) value tokens contain no non-ASCII decimal digits (Python's int()/float() accept e.g. Arabic-Indic digits, the model rejects them); "
